@@ -1037,6 +1037,9 @@ func snRandTree(rng *rand.Rand, depth int, tag int, p snProfile) *nbtNode {
 			return n
 		}
 		n.Et = 1 + rng.Intn(12)
+		if depth > 0 && rng.Intn(3) == 0 { // containers as elements: lists of lists of compounds etc. must not be rare
+			n.Et = []int{9, 10, 9, 10, 7, 12}[rng.Intn(6)]
+		}
 		if depth <= 0 && (n.Et == 9 || n.Et == 10) {
 			n.Et = 8
 		}
@@ -1237,6 +1240,7 @@ var snParseProbes = []string{
 	"1.5", "-2.25", "[1.5]", "{a:0.5}", // unsuffixed decimal
 	"[", " [ ", "[,]", "[:", // top-level list open, then nothing valid
 	"[[1],[2]]", "[[a]]", "{a:[[1]]}", // list of non-empty lists
+	"[[{}]]", "[[{a:1b}],[{}]]", "{k:[[{}]]}", "[[[{}]]]", "[[[1]],[[2]]]", "[[[B;1b]]]", "[{a:[[{}]]}]", // containers three deep
 	"[1 2]", "[a b]", "{a b:1}", "{a:1 2}", // two tokens separated by blanks
 	"1 2", "{}}", "[]]", "\"a\"b", "{} x", // trailing garbage
 	"0b1", "1sa", "2.0fx", "1.1a", "[1B1]", "[1.5.2]", "{a:-B-}", // a number, then more
@@ -1298,7 +1302,7 @@ func snLegBPrint(env *vk.Env, rng *rand.Rand) {
 }
 
 func snLegBParse(env *vk.Env, rng *rand.Rand) {
-	parseSafe := snProfile{negBytes: true, intArrays: true}
+	parseSafe := snProfile{negBytes: true, intArrays: true, nestedLists: true}
 	tr := &vk.Trace{}
 	nt := env.Pick(4000, 40000)
 	for i := 0; i < nt; i++ {
